@@ -41,6 +41,15 @@ CHECKS = {
              '(d+k <= end of record in progress), no premature accept, exact reassembly. Plus TLS handshake messages '
              'cut over records at every set of <= 2-3 positions.',
         design='§5 C04'),
+    'C05': dict(
+        technique='exhaustive enumeration of bounded byte-mutation families, filtered to accepted inputs, with a '
+                  'parse-compose-parse-compose oracle',
+        text='Every input the parsers ACCEPT among all truncations, single-byte substitutions / deletions / '
+             'insertions, short strings, token sequences and cross-class seeds of every class, plus targeted '
+             'non-canonical generators (54 date spellings x 5 classes, TXT partitions, all SCSV placements among <= 3 '
+             'suites, all 2^16 DNSKEY flag words, MySQL words with <= 2 flipped bits): compose succeeds, is accepted '
+             'again in full, parses to an equal object and composes to the same bytes.',
+        design='§5 C05'),
     'C10': dict(
         technique='complete enumeration of code spaces through the real decoders and list containers',
         text='All 2^8 / 2^16 codes of all 16 code-point factories, alone and as only / first / second element of '
@@ -68,6 +77,17 @@ CHECKS = {
              'counter); per transition the result is compared with a plain list and the bounds, refused edits must '
              'leave the state untouched and use a data-length error; per state compose/prefix/round-trip.',
         design='§5 C12'),
+    'C13': dict(
+        technique='explicit-state exploration of observer histories, buffer-event histories and '
+                  'construct/mutate/construct histories on real objects',
+        text='(a) every observer (compose, ja3, hassh, fingerprints, key_bytes, key_tag, as_json, as_markdown, '
+             '_asdict, str, repr, ==, hash) applied from every object within one deviation of every seed object and '
+             'from 12 client hellos at the cipher-suite ceiling: state (canonical dump + process-level encoder state) '
+             'must be unchanged whether the call returned or raised, results stable; all observers map the state to '
+             'itself, so the one-state graph closes (thorough replays all sequences <= 2). (b) 3 entry points x '
+             'buffer events (overwrite, reverse, extend, clear) per seed of every class, both directions. '
+             '(c) construct / mutate-in-place / construct histories for every class with defaulted arguments.',
+        design='§5 C13'),
     'C17': dict(
         technique='exhaustive explicit-state enumeration (all pairs, triples, permutations) on the real class',
         text='Complete: every ordered pair and triple of all defined versions, every permutation of every '
